@@ -96,15 +96,25 @@ def gen_case(rng, tier, big=False):
         attach['solvers'][''] = f()
     if attach['problem'] is None and attach['driver'] is None and not attach['systems'] and not attach['solvers']:
         attach['systems'][''] = f()
+    # renumber the files that are really used
+    used = sorted({attach[k] for k in ('problem', 'driver') if attach[k] is not None} |
+                  set(attach['systems'].values()) | set(attach['solvers'].values()))
+    ren = {u: i for i, u in enumerate(used)}
+    for k in ('problem', 'driver'):
+        if attach[k] is not None:
+            attach[k] = ren[attach[k]]
+    attach['systems'] = {p: ren[i] for p, i in attach['systems'].items()}
+    attach['solvers'] = {p: ren[i] for p, i in attach['solvers'].items()}
+    nfiles = len(used)
     return {'spec': spec, 'driver': driver, 'runs': runs, 'nfiles': nfiles, 'attach': attach,
             'record_derivatives': dtype == 'slsqp' and rng.random() < 0.7,
             'viewer': rng.random() < 0.8, 'real_kills': 3 if tier == 'quick' else 10,
-            'sigkills': 2 if tier == 'quick' else 10,
+            'sigkills': 1 if tier == 'quick' else 10,
             'seed': rng.randrange(10 ** 6)}
 
 
 def gen(tier, rng):
-    n = 24 if tier == 'quick' else 200
+    n = 20 if tier == 'quick' else 200
     return [gen_case(rng, tier, big=(tier != 'quick')) for _ in range(n)]
 
 
@@ -146,8 +156,24 @@ def main(tier):
     return v.finish()
 
 
+def run_parallel(cases, wd, tag):
+    """core.run_impl gives one process per 50 cases; here one case is a few hundred reader checks"""
+    import concurrent.futures as cf
+    jobs = max(1, min(core.NCPU, 8, len(cases)))
+    chunks = [cases[j::jobs] for j in range(jobs)]
+    with cf.ThreadPoolExecutor(max_workers=jobs) as ex:
+        futs = [ex.submit(run_impl, IMPL, ch, wd, '%s%d' % (tag, j), 1700, 1) for j, ch in enumerate(chunks)]
+        outs = [f.result() for f in futs]
+    if any(o[0] is None for o in outs):
+        return None, '\n'.join(o[1] for o in outs)
+    res = [None] * len(cases)
+    for j, o in enumerate(outs):
+        res[j::jobs] = o[0]
+    return res, ''
+
+
 def run_cases(v, wd, cases, tag, compare=True):
-    results, log = run_impl(IMPL, cases, wd, tag=tag, jobs=min(core.NCPU, 8, len(cases)), timeout=1700)
+    results, log = run_parallel(cases, wd, tag)
     if results is None:
         v.broke('correspondence:implementation-run-failed')
         v.cov['broken_detail'] = log[-3000:]
